@@ -22,13 +22,14 @@ enum Item {
     Swap,     // <var v="$w" w="$v"/>
     Fwd,      // shape referring to #z (defined at the very end)
     Reuse,    // <reuse href="#tpl" v="7"/>  (tpl contains a probe)
+    ReuseFwd, // <reuse href="#tpl" v="7" xy="#z|h"/>: an instantiation which is itself deferred
     G(Vec<Item>),  // <g v="5">..</g>
     GW(Vec<Item>), // <g w="6">..</g>
     Loop(Vec<Item>),
     If(Vec<Item>),
 }
 
-const ATOMS: &[Item] = &[Item::Probe, Item::Var1, Item::Var2, Item::Append, Item::Swap, Item::Fwd, Item::Reuse];
+const ATOMS: &[Item] = &[Item::Probe, Item::Var1, Item::Var2, Item::Append, Item::Swap, Item::Fwd, Item::Reuse, Item::ReuseFwd];
 
 fn nodes(items: &[Item]) -> usize {
     items
@@ -96,6 +97,7 @@ fn render(items: &[Item], s: &mut String) {
             Item::Swap => s.push_str("<var v=\"$w\" w=\"$v\"/>"),
             Item::Fwd => s.push_str("<rect xy=\"#z|h\" wh=\"1\"/>"),
             Item::Reuse => s.push_str("<reuse href=\"#tpl\" v=\"7\"/>"),
+            Item::ReuseFwd => s.push_str("<reuse href=\"#tpl\" v=\"7\" xy=\"#z|h\"/>"),
             Item::G(b) => {
                 s.push_str("<g v=\"5\">");
                 render(b, s);
@@ -218,7 +220,7 @@ impl Env {
                 Item::Append => self.assign(&[("v", "${v}x")]),
                 Item::Swap => self.assign(&[("v", "$w"), ("w", "$v")]),
                 Item::Fwd => {}
-                Item::Reuse => {
+                Item::Reuse | Item::ReuseFwd => {
                     let mut m = HashMap::new();
                     m.insert("v".to_string(), "7".to_string());
                     self.scopes.push(m);
@@ -283,7 +285,7 @@ fn is_var(i: &Item) -> bool {
 /// siblings, and its partial first pass is not rolled back" can only influence programs in which a
 /// deferred top-level unit contains an assignment, or contains a probe while a later unit assigns.
 fn deferred_side_effect_class(items: &[Item], tpl_last: bool) -> bool {
-    let defers = |i: &Item| matches!(i, Item::Fwd) || (tpl_last && matches!(i, Item::Reuse));
+    let defers = |i: &Item| matches!(i, Item::Fwd | Item::ReuseFwd) || (tpl_last && matches!(i, Item::Reuse));
     for (idx, unit) in items.iter().enumerate() {
         let u = std::slice::from_ref(unit);
         if !contains(u, &defers) {
@@ -292,7 +294,7 @@ fn deferred_side_effect_class(items: &[Item], tpl_last: bool) -> bool {
         if contains(u, &is_var) {
             return true;
         }
-        let has_probe = contains(u, &|i| matches!(i, Item::Probe | Item::Reuse));
+        let has_probe = contains(u, &|i| matches!(i, Item::Probe | Item::Reuse | Item::ReuseFwd));
         if has_probe && contains(&items[idx + 1..], &is_var) {
             return true;
         }
